@@ -548,3 +548,8 @@ M("C07", "breakdown test divided by the norm of the input", "kill",
   [(KE, "        if n2 < norm_tolerance:", "        if n2 / initial_norm < norm_tolerance:")], "CONV-honest")
 M("C08", "Lanczos residual tolerance scaled by the start vector's norm", "kill",
   [("emu_base/math/krylov_energy_min.py", "resid.item() < residual_tolerance", "resid.item() < residual_tolerance * v_init_norm.item()")], "CONV-honest")
+M("C12", "sparse builder ignores the weights", "kill",
+  [("emu_sv/sparse_operator.py", "                    result += tensor * coeff\n", "                    result += tensor\n")], "TABLES-build")
+M("C12", "dense builder caches by symbol set", "kill",
+  [("emu_sv/dense_operator.py", "                if isinstance(oper, torch.Tensor):\n                    return oper\n",
+    "                if isinstance(oper, torch.Tensor):\n                    return oper\n                if tuple(oper) in operators_with_tensors:\n                    return operators_with_tensors[tuple(oper)]\n")], "TABLES-build")
